@@ -283,7 +283,7 @@ def run(world, rep, tier, only=None):
         for i, c in enumerate(regs):
             hb = loop_head(srr, c)
             cond = (srr.blocks[hb].get("t") or {}).get("c") if hb is not None else None
-            ok = isinstance(cond, dict) and depends_on(srr, cond, lambda y: "r_count" in T.field_names(y), depth=3)
+            ok = isinstance(cond, dict) and depends_on(srr, cond, lambda y: "r_count" in T.field_names(y), depth=7, prog=prog)
             rep.ob("C03.i", site(srr, "record loop bounded by the block's r_count%s#%d" % (tag, i)), ok,
                    "the condition of the loop around jbd2_journal_set_revoke() `%s` derives from header->r_count" % T.pp(cond or {})[:40])
         # non-SCAN descriptor checksum failure fails the pass
